@@ -32,6 +32,13 @@ func c12Gen(r *rand.Rand, tier string) []spec.Case {
 		for _, pr := range []string{"netrpc", "grpc"} {
 			add(spec.C12Case{Proto: pr, Path: "relaunch-impostor", Launch: "cmd"})
 		}
+		// the plugin side of AutoMTLS on its own: started directly with PLUGIN_CLIENT_CERT in unusual shapes
+		for _, pr := range []string{"netrpc", "grpc"} {
+			for _, ce := range []string{"plain", "cert+junkblock", "junkblock+cert", "cert+keyblock", "cert+text", "two-certs", "junkblock-only", "text-only"} {
+				c := spec.C12Case{Proto: pr, Path: "direct-env", Launch: "direct", CertEnv: ce}
+				out = append(out, spec.Case{Kind: pr + "/direct-env/" + ce, P: spec.MustJSON(c)})
+			}
+		}
 		for _, pr := range []string{"netrpc", "grpc", "grpcmux"} {
 			for _, im := range []string{"tls", "plaintext"} {
 				add(spec.C12Case{Proto: pr, Impostor: im, Launch: "cmd"})
@@ -97,6 +104,28 @@ func c12Judge(c spec.Case, evs []spec.Event, d *Death) CaseResult {
 		return CaseResult{Verdict: "inconclusive", Inconcl: "setup: " + o.SetupErr, Class: res.Class}
 	}
 	res.Sample = map[string]any{"proto": p.Proto, "path": p.Path, "launch": p.Launch, "positive_control": o.Positive, "attempts": o.Attempts}
+	if p.Path == "direct-env" {
+		res.Class = fmt.Sprintf("%s|direct-env|%s", p.Proto, p.CertEnv)
+		res.Sample = map[string]any{"proto": p.Proto, "path": p.Path, "cert_env": p.CertEnv, "line": trunc(o.Line, 60), "positive_control": o.Positive, "attempts": o.Attempts}
+		res.Counters["odd_cert_env_cases"]++
+		// only the plain shape has to work for the legitimate host; with any other shape the plugin may
+		// refuse everybody, but it may never serve an intruder
+		if p.CertEnv == "plain" && !o.PositiveOK {
+			return CaseResult{Verdict: "inconclusive", Inconcl: "positive control failed: " + o.Positive, Class: res.Class}
+		}
+		if o.PositiveOK {
+			res.Counters["odd_cert_env_host_served"]++
+		}
+		for _, a := range o.Attempts {
+			res.Counters["intruder_attempts"]++
+			if a.Answered {
+				viol("intruder-answered:direct-env:"+p.CertEnv+":"+a.Cred, fmt.Sprintf("the plugin was started with PLUGIN_CLIENT_CERT of shape %q and answered an RPC of an intruder with credential class %q on its main listener (handshake line %q)", p.CertEnv, a.Cred, trunc(o.Line, 80)))
+			} else {
+				res.Counters["refused"]++
+			}
+		}
+		return res
+	}
 	if !o.PositiveOK {
 		return CaseResult{Verdict: "inconclusive", Inconcl: "positive control failed (the legitimate peer could not use the listener): " + o.Positive, Class: res.Class}
 	}
@@ -124,7 +153,7 @@ func init() {
 				r.Inconcl = append(r.Inconcl, fmt.Sprintf("too little observed: %v", r.Counters))
 			}
 		},
-		Rule:        "cases = connection path (main listener of net/rpc, gRPC, gRPC+mux incl. an intruder that takes the multiplexed listener's single session before the host; plugin-side and host-side brokered gRPC listeners found by listing the case's private socket directories, also with an address-translating runner) x intruder credential class (plaintext, TLS without client certificate, TLS with a fresh self-signed certificate of another name, TLS with a certificate of identical subject/SAN but another key, the latter also verifying against its own CA), fresh keys per case, each attempt speaking the real protocol (yamux+net/rpc Control.Ping, gRPC health check, PingPong) and each case carrying a positive control by the legitimate peer; plus impostor plugins that announce certificate A and serve certificate B or plaintext with the real protocol. Class = protocol|path|launch",
+		Rule:        "cases = connection path (main listener of net/rpc, gRPC, gRPC+mux incl. an intruder that takes the multiplexed listener's single session before the host; plugin-side and host-side brokered gRPC listeners found by listing the case's private socket directories, also with an address-translating runner) x intruder credential class (plaintext, TLS without client certificate, TLS with a fresh self-signed certificate of another name, TLS with a certificate of identical subject/SAN but another key, the latter also verifying against its own CA), fresh keys per case, each attempt speaking the real protocol (yamux+net/rpc Control.Ping, gRPC health check, PingPong) and each case carrying a positive control by the legitimate peer; plus plugins started directly with PLUGIN_CLIENT_CERT in unusual shapes (certificate followed / preceded by a PEM block that is not a certificate, by a key block, by text, two certificates, no certificate at all) attacked on their main listener by the same intruder classes; plus impostor plugins that announce certificate A and serve certificate B or plaintext with the real protocol. Class = protocol|path|launch",
 		Assumptions: []string{"a case without a successful positive control is inconclusive, never 'held'", "samples credential classes; says nothing about TLS itself"},
 	})
 }
